@@ -86,9 +86,9 @@ def configs(tier):
             out.append((mode, False, P, 3, 'S', 2, 1, 2))
             out.append((mode, False, P, 3, 'C', 1, -1, 2))
     out.append(('cancel', True, 2, 4, 'S', 1, 1, 1))
-    for P in (1, 2, 3):
-        out.append(('online', True, P, 3, 'O4c', 2, -2, 2))     # with Task.cancel() steps and own CancelledError
-    out.append(('online', True, 2, 3, 'O5', 2, -1, 1))
+    for P in (1, 2):
+        out.append(('online', True, P, 3, 'O4c', 2, -2, 1))     # with Task.cancel() steps and own CancelledError
+    out.append(('online', True, 2, 3, 'O5', 1, -1, 1))
     # external contention: another client of the same semaphore + pool.call issued from outside the body (values only)
     out.append(('online', True, 1, 3, 'O5x', 0, -1, 0))
     return out
@@ -114,14 +114,14 @@ def run(R):
     cfgs = configs(R.tier)
     R.bounds = {'workers': '3' if quick else '3 (all configurations), 4 (permit-holding caller, P=2, cancel_on_error, '
                                               'no outer cancellation, two-valued outcomes)',
-                'parallelism_P': '1..2 (online programs in thorough: 1..3)',
+                'parallelism_P': '1..2',
                 'online_program': ('call(w0) then 4 symbolic steps from {call next, wait(first unfinished), leave, raise in '
                                    'the block, resolve w_i with value/exception, end}; one symbolic drain mode (none / '
                                    'quiescent) for the schedule; P=2; plus call(w0) then 2 steps incl. Task.cancel() on a returned '
                                    'task, drain mode none / quiescent / one tick, P=1' if quick else
                                    'call(w0) then 4 symbolic steps incl. resolve with own CancelledError and Task.cancel() on '
-                                   'a returned task, drain mode none / quiescent / one tick, P=1..3; and 5 symbolic steps '
-                                   'without Task.cancel(), drain mode none / quiescent, P=2; and P=1 with 5 steps from {call, '
+                                   'a returned task, drain mode none / quiescent / one tick, P=1..2, unwind 0..1; and 5 symbolic '
+                                   'steps (value / exception) without Task.cancel(), drain mode none / quiescent, P=2; and P=1 with 5 steps from {call, '
                                    'leave, resolve with value, an external client of the same semaphore acquires / releases, '
                                    'pool.call issued from outside the body while the exit has not returned}') +
                                   '; afterwards the body leaves (if it has not) and every remaining future gets its value', 'resolutions': 'each worker future resolved exactly once, any order',
